@@ -7,10 +7,11 @@
     - SHA384 (offered by the tool) has a 48-byte digest, [LCPPolicy2.PolicyHash] is
       [[32]byte]: the generated policy loses 16 digest bytes, and the parser, which
       sizes the hash by [HashAlg], rejects every 70-byte SHA384 policy;
-    - [GenLCPPolicyV2] replaces every version <= 0x300 by 0x300;
-    - txt-prov's [loadConfig] (Model/LCPConfig.v) refuses the documented "0x302" / not-set
-      forms of the version, and fills PolicyHash with 32 bytes for every hash algorithm, so
-      the SHA1 policy it generates does not parse back as itself. *)
+    - [GenLCPPolicyV2] replaces every version <= 0x300 by 0x300.
+    txt-prov's [loadConfig] (Model/LCPConfig.v) is the code after the repairs 52ddbd2 (the
+    documented "0x302" / not-set forms of the version are accepted) and 3f192e9 (placeholder
+    PolicyHash as long as a digest of HashAlg): the theorems of the last section are the
+    positive statements those two defects refuted. *)
 From CSS Require Import Lib.Base Model.LCP Model.LCPConfig Proofs.LCP Proofs.LCPConfig.
 From Coq Require String. Import String.StringSyntax.
 
@@ -162,11 +163,13 @@ Print Assumptions C17_gen_roundtrip_sha384_always_fails.
 
 (** ** the policy txt-prov generates from its JSON config file (loadConfig) *)
 (** [config_states c ver alg pt sinit maxsinit lpc lah las]: the eight strings of the config
-    state these parameters in a documented way - the version a hex string (any case, leading
-    zeros) for 0x300..0x306, HashAlg one of SHA1/SHA256/SHA384, PolicyType Any/List, the two
-    SINIT versions not set (defaults 0 / 0xff) or a hex string below 0x100, and each of the
-    three lists the comma-joined names [lpc]/[lah]/[las]: documented names, none twice, in ANY
-    order.  [hex_denotes] is an inductive reading of hex strings that does not mention the model. *)
+    state these parameters in a documented way - the version not set (default 0x300) or a hex
+    form for 0x300..0x306, HashAlg one of SHA1/SHA256/SHA384, PolicyType Any/List, the two SINIT
+    versions not set (defaults 0 / 0xff) or a hex form below 0x100, and each of the three lists
+    the comma-joined names [lpc]/[lah]/[las]: documented names, none twice, in ANY order.
+    A hex form ([hex_form]) is a string of hex digits (any case, leading zeros), bare or with one
+    "0x" / "0X" in front; [hex_denotes] is an inductive reading of hex digits that does not
+    mention the model. *)
 Theorem C17_config_characterised : forall c ver alg pt sinit maxsinit lpc lah las,
   config_states c ver alg pt sinit maxsinit lpc lah las ->
   load_config c = Ok (config_spec_policy ver alg pt sinit maxsinit lpc lah las).
@@ -182,15 +185,17 @@ Theorem C17_config_carries_params : forall c ver alg pt sinit maxsinit lpc lah l
     parse_pc (p2_pc p) = pc_flags lpc /\ parse_ah (p2_hmask p) = ah_flags lah /\ parse_as (p2_smask p) = as_flags las.
 Proof. exact config_carries_params. Qed.
 Print Assumptions C17_config_carries_params.
+(* version not set, "0X007F", names out of order, SHA1 *)
 Example C17_config_states_example :
-  config_states ex_config 774 AlgSHA1 0 127 255 [bs "AuxDelete"; bs "NPW"] [bs "SHA384"; bs "SHA1"]
+  config_states ex_config 768 AlgSHA1 0 127 255 [bs "AuxDelete"; bs "NPW"] [bs "SHA384"; bs "SHA1"]
                 [bs "ECDSAP384SHA384"; bs "RSA2048SHA1"; bs "RSA3072SHA256"].
 Proof. exact ex_config_states. Qed.
-Example C17_config_states_example_shipped_plain :
-  config_states shipped_config_plain 770 AlgSHA256 1 0 255 [] [bs "SHA256"] [bs "RSA2048SHA256"].
-Proof. exact shipped_plain_states. Qed.
+(* the lcp.json shipped in cmd/core/txt-prov ("Version": "0x302") *)
+Example C17_config_states_example_shipped :
+  config_states shipped_config 770 AlgSHA256 1 0 255 [] [bs "SHA256"] [bs "RSA2048SHA256"].
+Proof. exact shipped_states. Qed.
 
-(** the inductive reading of hex strings is what the model's digit loop computes *)
+(** the inductive reading of hex digits is what the model's digit loop computes *)
 Theorem C17_config_hex_reading : forall l v,
   hex_denotes l v <-> (l <> [] /\ hex_fold 0 l = Some v).
 Proof.
@@ -200,50 +205,37 @@ Proof.
 Qed.
 Print Assumptions C17_config_hex_reading.
 
-(** generate from the config, serialise, parse.  _partial: HashAlg SHA256 only *)
-Theorem C17_config_roundtrip_partial : forall sha3 c ver pt sinit maxsinit lpc lah las,
-  config_states c ver AlgSHA256 pt sinit maxsinit lpc lah las ->
+(** the documented forms of the version (was refuted before 52ddbd2): whatever else the config
+    says, the hex digits [d], "0x"+[d] and "0X"+[d] give the same result, and a version that is
+    not set gives the result of "300" *)
+Theorem C17_config_version_forms : forall c d v, hex_denotes d v -> v < W64 ->
+  load_config (set_version c (bs "0x" ++ d)) = load_config (set_version c d) /\
+  load_config (set_version c (bs "0X" ++ d)) = load_config (set_version c d) /\
+  load_config (set_version c []) = load_config (set_version c (bs "300")).
+Proof. exact config_version_forms. Qed.
+Print Assumptions C17_config_version_forms.
+
+(** what is not a hex value is still refused, whatever else the config says *)
+Theorem C17_config_version_malformed_refused : forall c,
+  In (c_version c) [bs "0x"; bs "0X"; bs "0x0x302"; bs "0X0x302"; bs "x302"; bs "0x3g2"; bs "302h"; bs "-302"; bs "+302"; bs " 302"; bs "3_02"] ->
+  load_config c = Err E_STRCONV.
+Proof. exact config_version_malformed_refused. Qed.
+Print Assumptions C17_config_version_malformed_refused.
+
+(** generate from the config, serialise, parse: the identity for SHA1 (was refuted before
+    3f192e9) and SHA256.  _partial: HashAlg SHA384 is excluded (next theorem) *)
+Theorem C17_config_roundtrip_partial : forall sha3 c ver alg pt sinit maxsinit lpc lah las,
+  config_states c ver alg pt sinit maxsinit lpc lah las -> alg <> AlgSHA384 ->
   exists p, load_config c = Ok p /\ parse sha3 (encode2 p) = Ok (inr p).
-Proof. exact config_roundtrip_sha256. Qed.
+Proof. exact config_roundtrip. Qed.
 Print Assumptions C17_config_roundtrip_partial.
-
-(** HashAlg SHA1: loadConfig fills all 32 bytes of PolicyHash (00..1f), the parser keeps the 20
-    bytes of a SHA1 digest: the policy read back is never the generated one *)
-Theorem C17_config_roundtrip_sha1_refuted : exists c p q,
-  load_config c = Ok p /\ parse false (encode2 p) = Ok (inr q) /\ q <> p.
-Proof. exact config_roundtrip_sha1_refuted. Qed.
-Print Assumptions C17_config_roundtrip_sha1_refuted.
-
-Theorem C17_config_roundtrip_sha1_always_fails : forall sha3 c ver pt sinit maxsinit lpc lah las,
-  config_states c ver AlgSHA1 pt sinit maxsinit lpc lah las ->
-  exists p q, load_config c = Ok p /\ parse sha3 (encode2 p) = Ok (inr q) /\
-    p2_hash p = seqZ 0 32 /\ p2_hash q = seqZ 0 20 ++ repeat 0 12 /\ q <> p.
-Proof. exact config_roundtrip_sha1. Qed.
-Print Assumptions C17_config_roundtrip_sha1_always_fails.
+Example C17_config_roundtrip_example_sha1 : AlgSHA1 <> AlgSHA384. Proof. discriminate. Qed.
 
 Theorem C17_config_roundtrip_sha384_always_fails : forall sha3 c ver pt sinit maxsinit lpc lah las,
   config_states c ver AlgSHA384 pt sinit maxsinit lpc lah las ->
   exists p, load_config c = Ok p /\ parse sha3 (encode2 p) = Err E_UEOF.
 Proof. exact config_roundtrip_sha384. Qed.
 Print Assumptions C17_config_roundtrip_sha384_always_fails.
-
-(** the version forms of the documentation that the code refuses: "0x302" (the shipped
-    lcp.json, README.md) - while the same config with "302" gives version 0x302 - and "not set" *)
-Theorem C17_config_version_form_refuted : exists c,
-  c_version c = bs "0x302" /\ load_config c = Err E_STRCONV /\
-  exists p, load_config shipped_config_plain = Ok p /\ p2_version p = 770.
-Proof. exact config_version_form_refuted. Qed.
-Print Assumptions C17_config_version_form_refuted.
-
-Theorem C17_config_version_0x_always_fails : forall c x t,
-  c_version c = 48 :: x :: t -> (x = 120 \/ x = 88) -> load_config c = Err E_STRCONV.
-Proof. exact config_version_0x_always_fails. Qed.
-Print Assumptions C17_config_version_0x_always_fails.
-
-Theorem C17_config_version_unset_always_fails : forall c,
-  c_version c = [] -> load_config c = Err E_STRCONV.
-Proof. exact config_version_unset_always_fails. Qed.
-Print Assumptions C17_config_version_unset_always_fails.
 
 (** the hypotheses of [name_list] are necessary: a name listed twice is added twice
     ("NPW,NPW" sets SinitCaps, not NPW), a blank after the comma makes the name unknown and it is
